@@ -19,6 +19,10 @@
 // fires, every Before/After constraint whose target runs is respected, the built-ins
 // fire in their original relative order, and a Replace'd callback keeps its position
 // relative to every other callback (differential run without the Replace steps).
+// A name that was given a second entry while it existed (Register under an existing name,
+// Replace carrying Before/After) is held to what the statement still fixes: some handler
+// of the name fires, none twice, the handler of a later plain Replace fires, and after a
+// Remove none of them fires - whichever way the second entry came about.
 // A sequence that ends the process (unbounded recursion in the sorter) is attributed by
 // the core runner to the case (signature "fatal"); the literal sequence is left at the
 // head of the child's output file, so it shows up in the violation detail.
@@ -31,7 +35,12 @@
 //	panic                         recovered panic
 //	not-once:missing / :repeated  a live callback fired 0 / >1 times in one execution
 //	removed-ran                   a removed callback fired
+//	removed-ran:multi-entry       same, and the name had more than one entry (Register of an existing
+//	                              name / Replace with Before/After) when Remove was called
+//	removed-ran:registered-again  a handler taken out by Remove fired after the name was registered anew
 //	stale-handler                 a replaced handler fired instead of the replacement
+//	stale-handler:multi-entry     a name with several entries was Replace'd, only older handlers fired
+//	not-once:missing:multi-entry  a name with several entries, not removed: none of its handlers fired
 //	side:before / side:after      a Before/After(name) constraint is broken although an
 //	                              order satisfying all requested constraints exists
 //	side:star                     same for Before/After("*") (weak reading, see Assumptions)
@@ -175,21 +184,18 @@ type enumState struct {
 
 // opsAt lists, in canonical order, every call of the bounded space available in state st.
 //
-//	Register name : the next fresh user name, or a user name that does not exist now
+//	Register name : the next fresh user name, or a user name introduced earlier - removed since,
+//	                or still existing (a second entry under that name; with single, such a call
+//	                carries at most one request)
 //	targets       : {none} + built-ins of the alphabet + user names introduced so far (not
 //	                the name itself) + the next name that will be introduced (forward
 //	                reference; stays unknown when no later call introduces it) + "*"
 //	Replace/Remove: built-ins of the alphabet + user names introduced so far + unknown "nx"
-var enumDup = true
-var enumDupSingle = false
-
-func opsAt(st enumState, alpha []int) []step {
+func opsAt(st enumState, alpha []int, single bool) []step {
 	var out []step
 	regNames := []int{userBase + st.k}
 	for i := 0; i < st.k; i++ {
-		if st.live&(1<<uint(i)) == 0 || enumDup {
-			regNames = append(regNames, userBase+i)
-		}
+		regNames = append(regNames, userBase+i)
 	}
 	for _, n := range regNames {
 		tg := []int{none}
@@ -207,7 +213,7 @@ func opsAt(st enumState, alpha []int) []step {
 		dup := n < userBase+st.k && st.live&(1<<uint(n-userBase)) != 0
 		for _, b := range tg {
 			for _, a := range tg {
-				if dup && enumDupSingle && b != none && a != none {
+				if dup && single && b != none && a != none {
 					continue
 				}
 				out = append(out, step{Op: opRegister, Name: uint8(n), Bef: uint8(b), Aft: uint8(a)})
@@ -250,36 +256,37 @@ func (st enumState) next(s step) enumState {
 }
 
 type cntKey struct {
-	na   int // size of the built-in alphabet
-	st   enumState
-	left int
+	na     int // size of the built-in alphabet
+	st     enumState
+	left   int
+	single bool
 }
 
 var cntMemo = map[cntKey]int{}
 
 // count = number of sequences of exactly `left` further calls from st.
-func count(st enumState, alpha []int, left int) int {
+func count(st enumState, alpha []int, left int, single bool) int {
 	if left == 0 {
 		return 1
 	}
-	k := cntKey{len(alpha), st, left}
+	k := cntKey{len(alpha), st, left, single}
 	if v, ok := cntMemo[k]; ok {
 		return v
 	}
 	n := 0
-	for _, s := range opsAt(st, alpha) {
-		n += count(st.next(s), alpha, left-1)
+	for _, s := range opsAt(st, alpha, single) {
+		n += count(st.next(s), alpha, left-1, single)
 	}
 	cntMemo[k] = n
 	return n
 }
 
-func decode(alpha []int, length, idx int) []step {
+func decode(alpha []int, length, idx int, single bool) []step {
 	st := enumState{}
 	seq := make([]step, 0, length)
 	for left := length; left > 0; left-- {
-		for _, s := range opsAt(st, alpha) {
-			sz := count(st.next(s), alpha, left-1)
+		for _, s := range opsAt(st, alpha, single) {
+			sz := count(st.next(s), alpha, left-1, single)
 			if idx < sz {
 				seq = append(seq, s)
 				st = st.next(s)
@@ -471,7 +478,7 @@ func blocks(tier string) []block {
 			if l >= 3 {
 				alpha = p.reduced
 			}
-			out = append(out, block{pl: pl, length: l, alpha: alpha, size: count(enumState{}, alpha, l)})
+			out = append(out, block{pl: pl, length: l, alpha: alpha, size: count(enumState{}, alpha, l, l >= 3)})
 		}
 		out = append(out, block{pl: pl, length: 4, size: moveCount, move: true})
 		out = append(out, block{pl: pl, length: 5, size: multiCount, multi: true})
@@ -555,7 +562,7 @@ func randomSeq(r *core.Rand, p *pipeline) []step {
 				continue
 			}
 		}
-		if x >= 76 && x < 88 {
+		if r.Chance(3, 25) {
 			// a second entry under a name that exists: Register of that name, or a Replace that
 			// carries requests (gorm keeps both as entries of their own)
 			var cand []int
@@ -1436,7 +1443,7 @@ func caseSeq(c *core.Ctx) (pl int, seq []step, origin string) {
 			if b.multi {
 				return b.pl, multiSeq(&pipelines[b.pl], idx), "exhaustive second-entry-family"
 			}
-			return b.pl, decode(b.alpha, b.length, idx), fmt.Sprintf("exhaustive length %d", b.length)
+			return b.pl, decode(b.alpha, b.length, idx, b.length >= 3), fmt.Sprintf("exhaustive length %d", b.length)
 		}
 		idx -= b.size
 	}
@@ -1702,12 +1709,13 @@ var Engine = &core.Engine{
 	ID:    "C17",
 	Level: "exploration",
 	Rule: "one case = one registration sequence on one of the six pipelines (Create, Query, Update, Delete, Row, Raw), applied to a fresh gorm handle and followed by a real execution of the pipeline against SQLite, twice: with the built-ins wrapped by recording functions (B) and on the pristine registry with the built-ins seen through driver events and model hooks (A). " +
-		"Calls: Register, Before(t).Register, After(t).Register, Before(t).After(t').Register, Replace, Remove; registered names: canonical fresh names or names removed earlier; targets t: every built-in of the pipeline, every user name introduced so far, the next name to be introduced (forward reference / unknown), '*'; Replace/Remove names: built-ins, user names, an unknown name. " +
-		"Enumerated completely: all sequences of length 0..2 on every pipeline (quick and thorough); thorough adds all sequences of length 3 with the built-in alphabet reduced to {first, main, last} built-in on Create/Update/Delete (full on Query/Row/Raw). Also enumerated on every pipeline: the 150 'move' sequences of length 4 (register u1 and u2 with plain/Before/After constraints, remove one, register it again with other constraints). Then random sequences of length 3..8 over 5 user names (forward and removed names as targets, unknown name, '*', remove-and-register-again moves): 5 000 quick / 300 000 thorough. " +
+		"Calls: Register, Before(t).Register, After(t).Register, Before(t).After(t').Register (both chain orders), Replace, Remove; registered names: canonical fresh names, names removed earlier, and user names that exist at that moment (second entry under one name; in the length-3 enumeration with at most one request); targets t: every built-in of the pipeline, every user name introduced so far, the next name to be introduced (forward reference / unknown), '*'; Replace/Remove names: built-ins, user names, an unknown name. " +
+		"Enumerated completely: all sequences of length 0..2 on every pipeline (quick and thorough); thorough adds all sequences of length 3 with the built-in alphabet reduced to {first, main, last} built-in on Create/Update/Delete (full on Query/Row/Raw). Also enumerated on every pipeline: the 150 'move' sequences of length 4 (register u1 and u2 with plain/Before/After constraints, remove one, register it again with other constraints) and the 1 440 'second entry' sequences of length 3..6 (a name x that exists - a user callback registered plain / Before / After a built-in / Before or After '*', or the main built-in - gets a second entry through Register or through Before/After(..).Replace, with a neighbour registered plain / Before(x) / After(x); then nothing | Remove(x) | Remove, Register again (plain / After(neighbour)) | Replace(x) | Replace, Remove | Before(neighbour).Remove(x) | third Register, Remove). Then random sequences of length 3..8 over 5 user names (forward and removed names as targets, unknown name, '*', remove-and-register-again moves, second entries under existing user and built-in names by Register or by a Replace carrying a request, Remove calls carrying a request): 5 000 quick / 300 000 thorough. " +
 		"Ordering violations are classified by whether an order satisfying everything requested exists (side:*) or not (contradiction-accepted:*: the statement then demands an error return). distinct = (pipeline, literal sequence); non-trivial = no call returned an error, the pipeline ran, and at least one Before/After constraint with a running target, one removal or one replacement was checked against the firing order",
 	Assumptions: []string{
-		"a registration under a name that exists at that moment (duplicate Register without Replace, including built-in names) is not generated: the statement only speaks of Replace for an existing name",
-		"a callback never names itself in Before/After; Replace and Remove never carry Before/After; Match is not used",
+		"a second entry under a name that exists at that moment (Register of an existing user or built-in name; Replace carrying Before/After, which gorm stores as an entry of its own) IS generated, but the statement does not say which of the handlers then runs nor where: demanded is only that some handler of the name fires, none of them twice, that the handler of a later plain Replace fires, and that after Remove(name) none of them fires (and a later Register of the name starts afresh); Before/After requests of and towards such a name, its Replace position and the built-in order relative to it are not checked",
+		"a built-in name that was removed and is then registered again is treated the same way (position unspecified); the random generator does not produce it",
+		"a callback never names itself in Before/After; the Before/After requests of a Remove call mean nothing (the callback is removed all the same); plain Replace and Remove are the only forms in the exhaustive enumeration; Match is not used",
 		"'*' is read weakly: a callback registered Before(\"*\") (After(\"*\")) must fire before (after) every built-in and every callback registered without any Before/After; nothing is demanded relative to callbacks that carry constraints of their own",
 		"Replace of a name that does not exist at that moment is generated, but the resulting callback is only required to fire at most once, and constraints naming it are not checked (the statement defines Replace by the replaced callback's position)",
 		"the sequence stops at the first call that returns an error (accepted outcome); the pipeline is then not executed",
